@@ -214,6 +214,7 @@ def run(ctx, rep):
     uniqueid(ctx, rep)
     # "decoding succeeds": the sequential point-cloud reader the animation coder inherits rejects nothing
     # the writer produces - item-count plausibility guards must be backed by per-item consumption
+    keytype(ctx, rep)
     from .C01 import g1justify
     rep.rules_text.append("G1JUSTIFY (sequential point-cloud reader): an input-relative rejection of an item count is backed by at least that many bytes consumed per item (keyframes compress to far less than a byte per frame)")
     g1justify(ctx, rep, only_class={"draco::PointCloudSequentialDecoder", "draco::PointCloudDecoder",
@@ -282,3 +283,43 @@ def timestamp_slot(ctx, rep, led):
                            detail="placeholder attribute added when no attribute exists yet" if reserve else
                            "the first track would take attribute slot 0 (kTimestampId)"))
         break
+
+
+def keytype(ctx, rep):
+    """KEYTYPE: the encoder-worker options (`EncoderOptions` = DracoOptions<int>) are keyed by attribute *id* -
+    for an animation, the track id.  An attribute *type* enumerator converts to int silently
+    (GeometryAttribute::GENERIC == 4) and then addresses whatever attribute / track has that id."""
+    F = ctx.F
+    rep.rules_text.append(
+        "KEYTYPE: no call of a DracoOptions<int> (attribute-id keyed) accessor in the library receives a "
+        "GeometryAttribute::Type value as its key (an attribute type is not an attribute / track id)")
+    n, bad_ctl = 0, False
+    for fn in F.fns.values():
+        is_ctl = fn.name.startswith("verif_control::c20_keytype")
+        if "/draco/" not in fn.file and not is_ctl:
+            continue
+        for c, b, rk, ev in fn.calls():
+            fnm = c.get("fn") or ""
+            if not fnm.startswith("draco::DracoOptions<int>::") and not (
+                    fnm.startswith("draco::EncoderOptionsBase<int>::")):
+                continue
+            args = c.get("args") or []
+            if not args:
+                continue
+            sh = strip_targs(fnm).rsplit("::", 1)[-1]
+            if "Attribute" not in sh:
+                continue
+            n += 0 if is_ctl else 1
+            typed = any((x.get("k") == "lit" and str(x.get("n") or "").startswith("draco::GeometryAttribute::")) or
+                        "GeometryAttribute::Type" in str(x.get("t") or "")
+                        for x in walk(args[0]))
+            if typed:
+                bad_ctl |= is_ctl
+                rep.add(Obligation("KEYTYPE", fn.base, "key of " + sh, fn.site(c.get("loc", "")), VIOLATION, control=is_ctl,
+                                   detail="`%s`: an attribute type is used as the key of options that are keyed by "
+                                          "attribute id; it addresses the attribute / animation track with that number" % (
+                                              ev.get("src") or "")[:100]))
+    rep.add(Obligation("KEYTYPE", "library", "id-keyed option accesses", "-", DISCHARGED, trivial=True,
+                       detail="%d accesses of attribute-id keyed options inspected" % n))
+    rep.floor("accesses of attribute-id keyed options", n, 10)
+    rep.control("KEYTYPE", "c20_keytype_bad", bad_ctl, "an attribute type used as an attribute-id key must be reported")
